@@ -19,8 +19,9 @@ ASSUMPTIONS = c06.ASSUMPTIONS + [
     "call sequences are a concrete shard parameter (every allowed sequence up to the stated length is a shard); "
     "L = getnames+namelist+list+getinfo+needs_password, T = test, Z = testzip, A = extractall(factory), "
     "E = extract([last member], factory), R = reset",
-    "path-opened multi-folder archives take the thread-parallel branch, which is outside this technique (C13): "
-    "sequences on them are checked only for archives opened from a stream, and for single-folder archives opened by path",
+    "path-opened multi-folder archives take the thread-parallel branch: it is run with a sequential thread stand-in "
+    "(start() runs the worker to completion) – ONE schedule, which checks what each worker is asked to do; the "
+    "interleavings themselves are outside this technique (C13)",
 ]
 
 OPS = "LTZAER"
@@ -245,7 +246,8 @@ def units(tier):
     M = "vf.props.c12"
     us = [Unit("open_mode[r]", M, "open_mode", {}, 300)]
     maxlen = 2 if tier == "quick" else 3
-    shapes = [("ff", [2], {"packcrc": True}, False), ("ff", [1, 1], {}, False), ("ff", [2], {}, True), ("d", [], {}, False)]
+    shapes = [("ff", [2], {"packcrc": True}, False), ("ff", [1, 1], {}, False), ("ff", [2], {}, True), ("d", [], {}, False),
+              ("ff", [1, 1], {}, True)]   # by path + multi-folder: thread-parallel branch with a sequential thread stand-in
     if tier == "thorough":
         shapes += [("fdf", [1, 1], {"packcrc": True}, False)]
     for (p, f, o, by_path) in shapes:
